@@ -30,7 +30,7 @@ func init() { props["C03"] = runC03 }
 // `safefix` / `repaired` for self-tests against a patched copy (VERIF_REPO=… VERIF_C03_MODEL=safefix).
 func c03Model() string {
 	switch m := os.Getenv("VERIF_C03_MODEL"); m {
-	case "safefix", "repaired", "aswas":
+	case "safefix", "safefix2", "repaired", "aswas":
 		return m
 	}
 	return "asis"
@@ -477,6 +477,8 @@ func errClassOf(msg string) string {
 		return "pointer-not-array"
 	case has("used as condition"):
 		return "non-bool-cond"
+	case has("invalid map key"):
+		return "bad-map-key"
 	case strings.HasPrefix(m, "expected "):
 		return "expected"
 	}
@@ -517,13 +519,14 @@ var c03Expects = []struct {
 }
 
 type c03Case struct {
-	env     zooEnv
-	src     string
-	expect  int
-	fault   string
-	static  bool
-	goal    reflect.Type
-	refWell bool
+	env      zooEnv
+	src      string
+	expect   int
+	fault    string
+	static   bool
+	goal     reflect.Type
+	refWell  bool
+	refClass string // the rule of the reference set that rejects it
 }
 
 func c03Envs() []zooEnv {
@@ -677,6 +680,9 @@ func runC03(c *Ctx) {
 		// "all its operands are statically typed": the Lean definition `staticNode` decides
 		cs.static = strings.HasSuffix(refs[i], " true)")
 		cs.refWell = refWell
+		if rsx, perr := ParseSx(refs[i]); perr == nil && rsx.Tag() == "ill" && len(rsx.List) > 1 {
+			cs.refClass = rsx.List[1].Atom
+		}
 		c03Oracle(c, cs)
 	}
 	for _, k := range []string{"check:accepted", "check:rejected", "oracle:static-runs", "oracle:mutants-rejected"} {
@@ -747,7 +753,7 @@ func c03Oracle(c *Ctx, cs c03Case) {
 	}
 	if cerr == nil && !cs.refWell {
 		// accepted although the reference rules give it no type (arbitrary trees; the deliberate mutants are handled above)
-		violateKeyed(c, Violation{What: "an expression that the reference typing rules reject is accepted by Compile", Key: "c03:ill-typed-accepted:" + c03IllKey(cs.src), Input: in,
+		violateKeyed16(c, Violation{What: "an expression that the reference typing rules reject is accepted by Compile", Key: "c03:ill-typed-accepted:" + c03IllKey(cs.refClass), Input: in,
 			Expect: "Compile rejects", Got: "accepted"})
 		return
 	}
@@ -792,15 +798,21 @@ func c03Oracle(c *Ctx, cs c03Case) {
 	}
 }
 
-// c03IllKey classifies an accepted reference-ill-typed expression by the construct responsible
-func c03IllKey(src string) string {
-	switch {
-	case strings.Contains(src, "["):
+// c03IllKey names an accepted reference-ill-typed expression by the reference rule that rejects it
+func c03IllKey(refClass string) string {
+	switch refClass {
+	case "bad-index":
 		return "bad-index"
-	case strings.Contains(src, "("):
+	case "bad-argument":
 		return "int-literal-to-non-numeric-param"
+	case "bad-map-key":
+		return "map-literal-key"
+	case "not-sliceable":
+		return "slice-of-map"
+	case "mismatch-binary":
+		return "in-map-key"
 	}
-	return "other"
+	return refClass
 }
 
 func c03DynKey(src string) string {
@@ -815,6 +827,12 @@ func c03DynKey(src string) string {
 
 func c03TypeErrKey(src, rerr string) string {
 	switch {
+	case strings.Contains(rerr, "interface conversion") && strings.Contains(rerr, "not string") && strings.Contains(src, "{"):
+		return "map-literal-key"
+	case strings.Contains(rerr, "cannot slice"):
+		return "slice-of-map"
+	case strings.Contains(rerr, "MapIndex") && strings.Contains(src, " in "):
+		return "in-map-key"
 	case strings.Contains(rerr, "interface conversion"):
 		return "interface-conversion"
 	case strings.Contains(rerr, "reflect: Call using"):
